@@ -77,6 +77,15 @@ if KEYLOG:
                 if first:
                     with open(KEYLOG, 'ab') as f: f.write(line)
                     first = False
+                    # $FAKE_LATE_NOISE = "<marker file>:<text>": once per marker (the first launch), after the key has arrived, the "ssh" prints
+                    # this line on stderr - e.g. a shell complaint that only shows up late
+                    ln = os.environ.get('FAKE_LATE_NOISE')
+                    if ln:
+                        mark, text = ln.split(':', 1)
+                        if not os.path.exists(mark):
+                            open(mark, 'w').write('x')
+                            time.sleep(0.2)
+                            sys.stderr.buffer.write(text.encode() + b'\n'); sys.stderr.buffer.flush()
                 p.stdin.write(line); p.stdin.flush()
         except OSError:
             pass
